@@ -34,25 +34,37 @@ package verifier
 // representative is emitted twice, that every fingerprint is represented, and termination.
 //@ pred second(chains, i) = chains[i][1]
 //@ pred hasSecond(chains, i) = len(chains[i]) >= 2
-//@ pred secondsOK(chains) = forall(i, 0, len(chains), allocated(chains[i]) && (hasSecond(chains, i) ==> second(chains, i) != nil))
-//@ pred chainsAlloc(chains) = forall(i, 0, len(chains), allocated(chains[i]), chains[i])
+// spec.idx and spec.pos are the identity (see /verif/specs/verifier.smt2); ix(i) and px(j) are
+// true and only plant the terms idx(i) / pos(j) that trigger the quantifiers over chain indices
+// and over positions of the result (matching on chains[i] itself is unreliable, see the notes).
+//@ pred ix(i) = spec.idx(i) == i
+//@ pred px(j) = spec.pos(j) == j
+//@ pred secondsOK(chains) = forall(i, 0, len(chains), allocated(chains[i]) && (hasSecond(chains, i) ==> second(chains, i) != nil), spec.idx(i))
 //@ pred ckey(c) = spec.keystr(seq(c.FingerprintSHA256), len(c.FingerprintSHA256))
-// the map sends every key to the index of a chain whose second certificate has that fingerprint
-//@ pred repOK(chains, m, n) = forallv(k, string, has(m, k) ==> 0 <= m[k] && m[k] < n && hasSecond(chains, m[k]) && ckey(second(chains, m[k])) == k)
+// the map sends every key to the index of a chain whose second certificate has that fingerprint.
+// The last conjunct (key equation) is written twice, for keys filed under the chain processed
+// last (index n-1) and for all others, which hands the solver the case split of the map update.
+//@ pred keyEq(chains, m, k) = ckey(second(chains, m[k])) == k
+//@ pred repOK(chains, m, n) = forallv(k, string, has(m, k) ==> ix(m[k]) && 0 <= m[k] && m[k] < n && hasSecond(chains, m[k]) && (m[k] == n-1 ==> keyEq(chains, m, k)) && (m[k] != n-1 ==> keyEq(chains, m, k)))
 // p is the second certificate of some chain (entry state; the function writes nothing that existed before)
-//@ pred isSecond(chains, p) = !forall(i, 0, len(chains), !(old(len(chains[i])) >= 2 && p == old(chains[i][1])), chains[i])
+//@ pred isSecond(chains, p) = !forall(i, 0, len(chains), !(ix(i) && old(len(chains[i])) >= 2 && p == old(chains[i][1])), spec.idx(i))
 //@ pred repOf(chains, m, p) = has(m, ckey(p)) && second(chains, m[ckey(p)]) == p
 //@ func parentsFromChains
-//@   requires secondsOK(chains) && chainsAlloc(chains)
-//@   loop 1 invariant 0 <= it && it <= len(chains) && parentSet != nil
+//@   requires secondsOK(chains)
+//@   loop 1 invariant 0 <= it && it <= len(chains) && parentSet != nil && ix(it)
 //@   loop 1 decreases len(chains) - it
 //@   loop 1 invariant repOK(chains, parentSet, it)
 //@   loop 2 invariant parents == nil || fresh(parents)
-//@   loop 2 invariant forall(j, 0, len(parents), repOf(chains, parentSet, parents[j]))
-//@   loop 2 invariant forall(j, 0, len(parents), isSecond(chains, parents[j]))
-//@   ensures [member] forall(j, 0, len(parents), isSecond(chains, parents[j]))
-//@   ensures [distinct] forall(a, 0, len(parents), forall(b, 0, len(parents), ckey(parents[a]) == ckey(parents[b]) ==> parents[a] == parents[b]))
+//@   loop 2 invariant forall(j, 0, len(parents), px(j) ==> repOf(chains, parentSet, parents[j]), spec.pos(j))
+//@   loop 2 invariant forall(j, 0, len(parents), px(j) ==> isSecond(chains, parents[j]), spec.pos(j))
+//@   ensures [member] forall(j, 0, len(parents), px(j) ==> isSecond(chains, parents[j]))
+//@   ensures [distinct] forall(a, 0, len(parents), forall(b, 0, len(parents), px(a) && px(b) && ckey(parents[a]) == ckey(parents[b]) ==> parents[a] == parents[b]))
 //@   ensures parents == nil || fresh(parents)
+
+// NewVerifier: "returns and initializes a new Verifier given a PKI graph".
+//@ func NewVerifier
+//@   ensures result != nil && fresh(result) && result.PKI == pki
+//@   terminates
 
 // clean: only the VerifyTime field of the options is written. (time.Time is opaque in
 // /verif/extern/time.contracts, so "unchanged unless zero" cannot be stated.)
@@ -115,25 +127,33 @@ package verifier
 //@   modifies under(es.edges)
 //@   terminates
 
-// Edges: "returns all edges in the set as a slice". Stated with an auxiliary, otherwise
-// unconstrained relation ghost.edgeIn: for every relation that contains all edges filed in the
-// set (allFiled), every element of the result is in the relation - i.e. (take the relation
-// "is a value of the map") every element of the result is an edge of the set; an empty set
-// gives an empty result. That every edge of the set occurs, exactly once, depends on Go's map
-// iteration visiting each key once; govc models a map range as "some key of the domain per
+// Edges: "returns all edges in the set as a slice". Stated on the map itself: every element of
+// the result is a value of the map (isEdgeOf: some key filed in the set maps to it); an empty
+// set gives an empty result. That every edge of the set occurs, exactly once, depends on Go's
+// map iteration visiting each key once; govc models a map range as "some key of the domain per
 // iteration" (see /verif/notes/verifier.md), so completeness and termination are not stated.
-//@ pred allFiled(es) = forallv(k, string, has(es.edges, k) ==> ghost.edgeIn(es, es.edges[k]))
+//@ pred isEdgeOf(es, e) = !forallv(k, string, !(has(es.edges, k) && es.edges[k] == e))
 //@ pred emptySet(es) = forallv(k, string, !has(es.edges, k))
 //@ func (*GraphEdgeSet).Edges
-//@   requires es != nil && allFiled(es)
+//@   requires es != nil
 //@   loop 1 invariant out == nil || fresh(out)
-//@   loop 1 invariant forall(i, 0, len(out), ghost.edgeIn(es, out[i]))
+//@   loop 1 invariant forall(i, 0, len(out), isEdgeOf(es, out[i]))
 //@   loop 1 invariant emptySet(es) ==> len(out) == 0
-//@   ensures forall(i, 0, len(out), ghost.edgeIn(es, out[i]))
+//@   ensures [member] forall(i, 0, len(out), isEdgeOf(es, out[i]))
 //@   ensures out == nil || fresh(out)
-//@   ensures emptySet(es) ==> len(out) == 0
+//@   ensures [empty] emptySet(es) ==> len(out) == 0
 
 // ---------------------------------------------------------------- graph.go: Graph accessors
+
+// NewGraph: "initializes an empty Graph": no nodes, an empty edge set, empty indexes (the
+// starting point of every insertion history of C10).
+//@ func NewGraph
+//@   ensures g != nil && fresh(g) && g.nodes == nil
+//@   ensures g.edges != nil && fresh(g.edges) && g.edges.edges != nil && len(g.edges.edges) == 0 && emptySet(g.edges)
+//@   ensures g.nodesBySubjectAndKey != nil && len(g.nodesBySubjectAndKey) == 0 && forallv(k, subjectAndKeyFingerprint, !has(g.nodesBySubjectAndKey, k))
+//@   ensures g.nodesBySubject != nil && len(g.nodesBySubject) == 0 && forallv(k, string, !has(g.nodesBySubject, k))
+//@   ensures g.missingIssuerNode != nil && len(g.missingIssuerNode) == 0 && forallv(k, string, !has(g.missingIssuerNode, k))
+//@   terminates
 
 //@ func (*Graph).Nodes
 //@   requires g != nil
@@ -144,10 +164,10 @@ package verifier
 //@   terminates
 
 //@ func (*Graph).Edges
-//@   requires g != nil && g.edges != nil && allFiled(g.edges)
-//@   ensures forall(i, 0, len(result), ghost.edgeIn(g.edges, result[i]))
+//@   requires g != nil && g.edges != nil
+//@   ensures [member] forall(i, 0, len(result), isEdgeOf(g.edges, result[i]))
 //@   ensures result == nil || fresh(result)
-//@   ensures emptySet(g.edges) ==> len(result) == 0
+//@   ensures [empty] emptySet(g.edges) ==> len(result) == 0
 
 //@ func (*Graph).FindEdge
 //@   requires g != nil && g.edges != nil
